@@ -344,10 +344,30 @@ def explore(ns, res, r, nested, origin, rounds):
         results = []
         renamed = []
         taking = []
-        for node in ns.nodes.bfs(exprs):
+        all_nodes = list(ns.nodes.bfs(exprs))
+        if r.random() < 0.5:
+            # calling pattern of strategy hierarchical: node by node
+            order = [(node, mname, m, False) for node in all_nodes
+                     for mname, m in muts]
+        else:
+            # calling pattern of strategy ddmin: one mutator instance filters
+            # all nodes first and is then asked for the mutations of each
+            res.count('rounds_in_ddmin_calling_pattern')
+            order = []
             for mname, m in muts:
+                for node in all_nodes:
+                    try:
+                        if not hasattr(m, 'filter') or m.filter(node):
+                            order.append((node, mname, m, True))
+                    except Exception as e:  # noqa
+                        res.count('exceptions_while_proposing')
+                        res.add_set('exceptions',
+                                    f'{mname}:{type(e).__name__}')
+        for node, mname, m, filtered in order:
+            if True:
                 try:
-                    if hasattr(m, 'filter') and not m.filter(node):
+                    if not filtered and hasattr(m, 'filter') and \
+                            not m.filter(node):
                         continue
                     props = []
                     if hasattr(m, 'mutations'):
